@@ -83,18 +83,19 @@ const (
 )
 
 type sched struct {
-	cfg      Config
-	threads  []*thread
-	cur      *thread
-	budget   int
-	aborted  bool
-	finished bool
-	done     chan struct{}
-	out      Outcome
-	gen      int64 // bumped by every external event (context cancelled, timer fired, channel operation by the harness)
-	noteSeq  int64
-	notes    map[any]int64
-	live     int
+	cfg                 Config
+	threads             []*thread
+	cur                 *thread
+	budget              int
+	aborted             bool
+	finished            bool
+	done                chan struct{}
+	out                 Outcome
+	gen                 int64   // bumped by every external event (context cancelled, timer fired, channel operation by the harness)
+	eagerFor, eagerBack *thread // a freshly spawned thread running its thread-local prologue, and who to return to
+	noteSeq             int64
+	notes               map[any]int64
+	live                int
 }
 
 var (
@@ -200,6 +201,13 @@ func (sc *sched) newThread(name string, f func(), system bool) *thread {
 			t.state = stDone
 			sc.live--
 			sc.step(t, "exit")
+			if sc.eagerFor == t { // ended before its first scheduling operation
+				sp := sc.eagerBack
+				sc.eagerFor, sc.eagerBack = nil, nil
+				sc.cur = sp
+				sp.resume <- struct{}{}
+				return
+			}
 			if sc.live == 0 {
 				sc.finish()
 				return
@@ -385,17 +393,18 @@ func (sc *sched) pick(label string) *thread {
 
 func (sc *sched) me() *thread { return sc.cur }
 
-// Point is a scheduling point: the running thread may be descheduled here.
-func Point(label string) {
-	sc := s
-	if sc == nil {
+// yield is the common tail of every scheduling operation: the calling thread t has recorded its state (runnable, or
+// blocked on a condition); someone is picked and t parks unless it is picked itself. A thread that was started eagerly
+// by Spawn/Go hands control straight back to its spawner at its first scheduling operation instead.
+func (sc *sched) yield(t *thread, label string) {
+	if sc.eagerFor == t {
+		sp := sc.eagerBack
+		sc.eagerFor, sc.eagerBack = nil, nil
+		sc.cur = sp
+		sp.resume <- struct{}{}
+		sc.park(t)
 		return
 	}
-	if sc.aborted {
-		runtime.Goexit()
-	}
-	t := sc.me()
-	sc.step(t, label)
 	if sc.out.Steps > sc.cfg.MaxSteps {
 		sc.out.StepLimit = true
 		sc.abort()
@@ -411,7 +420,50 @@ func Point(label string) {
 	}
 }
 
-// Block suspends the running thread until cond() holds or virtual time reaches wakeAtNs (0 = no deadline).
+// Point is a scheduling point: the running thread may be descheduled here.
+func Point(label string) {
+	sc := s
+	if sc == nil {
+		return
+	}
+	if sc.aborted {
+		runtime.Goexit()
+	}
+	t := sc.me()
+	sc.step(t, label)
+	sc.yield(t, label)
+}
+
+// PointWhen is a scheduling point that is enabled only while cond() holds (or once virtual time has reached wakeAtNs,
+// 0 = no deadline): acquiring a lock, accepting a connection, reading from a connection. Other threads may run first
+// even if cond() holds now; when the call returns, cond() held (or the deadline had passed) at the moment the thread
+// was scheduled and no other thread has run since.
+func PointWhen(label string, cond func() bool, wakeAtNs int64) {
+	pointWhen(label, cond, wakeAtNs, false)
+}
+
+// PointWhenH is PointWhen for waits of the test harness itself ("time first" never jumps to their deadline).
+func PointWhenH(label string, cond func() bool, wakeAtNs int64) {
+	pointWhen(label, cond, wakeAtNs, true)
+}
+
+func pointWhen(label string, cond func() bool, wakeAtNs int64, harness bool) {
+	sc := s
+	if sc == nil {
+		panic("vsched.PointWhen without an execution: " + label)
+	}
+	if sc.aborted {
+		runtime.Goexit()
+	}
+	t := sc.me()
+	t.state, t.cond, t.wakeAt, t.waitLbl, t.harness = stBlocked, cond, wakeAtNs, label, harness
+	sc.step(t, label)
+	sc.yield(t, label)
+	t.state, t.cond, t.wakeAt = stRunnable, nil, 0
+}
+
+// Block suspends the running thread until cond() holds or virtual time reaches wakeAtNs (0 = no deadline); if cond()
+// holds already it returns at once without a scheduling point (harness waits).
 // cond is evaluated by the scheduler while other threads are stopped, so it may read shared harness state freely.
 func Block(label string, cond func() bool, wakeAtNs int64) { block(label, cond, wakeAtNs, false) }
 
@@ -427,21 +479,10 @@ func block(label string, cond func() bool, wakeAtNs int64, harness bool) {
 	if sc.aborted {
 		runtime.Goexit()
 	}
-	t := sc.me()
 	if cond() || (wakeAtNs > 0 && int64(vtime.Elapsed()) >= wakeAtNs) {
 		return
 	}
-	t.state, t.cond, t.wakeAt, t.waitLbl, t.harness = stBlocked, cond, wakeAtNs, label, harness
-	sc.step(t, "block:"+label)
-	next := sc.pick(label)
-	if next == nil {
-		sc.park(t)
-	}
-	if next != t {
-		sc.switchTo(next)
-		sc.park(t)
-	}
-	t.state, t.cond, t.wakeAt = stRunnable, nil, 0
+	pointWhen("block:"+label, cond, wakeAtNs, harness)
 }
 
 // Quiesce suspends the running thread until no other thread can run without virtual time advancing.
@@ -456,22 +497,28 @@ func Quiesce() {
 	t := sc.me()
 	t.state, t.cond, t.wakeAt, t.waitLbl, t.quiesce = stBlocked, nil, 0, "quiesce", true
 	sc.step(t, "block:quiesce")
-	next := sc.pick("quiesce")
-	if next == nil {
-		sc.park(t)
-	}
-	if next != t {
-		sc.switchTo(next)
-		sc.park(t)
-	}
+	sc.yield(t, "quiesce")
 	t.state, t.cond, t.wakeAt, t.quiesce = stRunnable, nil, 0, false
 }
 
-// Go starts f as a new thread of the execution (the transformer routes every go statement here).
+// Go starts f as a new thread of the execution (the transformer routes every go statement here). The new thread is
+// run at once up to its first scheduling operation (that segment is thread-local by construction), then the spawner
+// continues with a scheduling point.
 func Go(f func()) { GoNamed("", f, true) }
 
 // GoNamed is Go with a name; system marks threads that execute repository code.
 func GoNamed(name string, f func(), system bool) {
+	if s == nil {
+		go f()
+		return
+	}
+	Spawn(name, f, system)
+	Point("go")
+}
+
+// Spawn starts f as a new thread without a scheduling point of the spawner (harness set-up: all threads of a scenario
+// are created "at once"). The new thread runs up to its first scheduling operation and waits there.
+func Spawn(name string, f func(), system bool) {
 	sc := s
 	if sc == nil {
 		go f()
@@ -483,8 +530,15 @@ func GoNamed(name string, f func(), system bool) {
 	if name == "" {
 		name = fmt.Sprintf("go%d", len(sc.threads))
 	}
-	sc.newThread(name, f, system)
-	Point("go")
+	t := sc.newThread(name, f, system)
+	if sc.eagerFor != nil {
+		return // nested spawn inside an eager segment: the grandchild starts when it is first scheduled
+	}
+	me := sc.me()
+	sc.eagerFor, sc.eagerBack = t, me
+	sc.cur = t
+	t.resume <- struct{}{}
+	sc.park(me)
 }
 
 // Signal tells the scheduler that something a WaitExternal caller may be waiting for has happened (a context was
